@@ -136,10 +136,10 @@ class Result:
         self.dist[key] = self.dist.get(key, 0) + n
 
     def fail(self, what, where, replay):
-        if len(self.failures) < 50:
+        k = "fail:" + what[:80]
+        self.count(k)
+        if self.dist[k] <= 5 and len(self.failures) < 200:
             self.failures.append(dict(what=what, where=where, replay=replay))
-        else:
-            self.count("failures_dropped")
 
     def merge(self, other):
         self.evaluations += other.evaluations
